@@ -22,8 +22,8 @@ def deg_attrs(b, d):
     return sorted(out)
 
 
-def full_obs(b, d):
-    degs = deg_attrs(b, d)                 # first: plain attribute reads
+def full_obs(b, d, degs=None):
+    degs = deg_attrs(b, d) if degs is None else degs      # first: plain attribute reads
     o = obs_graph(b, d)
     o['degs'] = degs
     sets = []
@@ -84,8 +84,13 @@ class Replayer:
         self.observe({'op': 'Init', 'p': 0, 'c': 0, 'k': 0}, '', False)
 
     def observe(self, op, err, skipped):
-        self.ev.append({'op': op['op'], 'p': op['p'], 'c': op['c'], 'k': op['k'], 'err': err, 'skipped': skipped,
-                        'obs': [full_obs(self.b, d) for d in self.objs]})
+        # pass 1: plain attribute reads of every object; pass 2: the computing observers, NEWEST object first, so that an
+        # older object is asked right after a sibling with other members was (node objects are shared between them)
+        degs = [deg_attrs(self.b, d) for d in self.objs]
+        obs = [None]*len(self.objs)
+        for i in reversed(range(len(self.objs))):
+            obs[i] = full_obs(self.b, self.objs[i], degs[i])
+        self.ev.append({'op': op['op'], 'p': op['p'], 'c': op['c'], 'k': op['k'], 'err': err, 'skipped': skipped, 'obs': obs})
 
     def step(self, op):
         from adsg_core.graph.adsg_nodes import DesignVariableNode, SelectionChoiceNode
